@@ -95,10 +95,139 @@ func synthSbix() ([]byte, error) {
 	return synthFile, synthErr
 }
 
+// Two corpus fonts with one 16-bit field changed each, so that a rarely taken path of the
+// shaper runs while the goroutines share the parsed font:
+//   - TRAK.ttf whose track 0 entry has no per-size values (null offset): tracking under a
+//     point size takes the "no values" path of getTracking;
+//   - a Telugu font whose 'blwf' chained context lookup (format 3) has the virama as input
+//     coverage: the Indic shaper's would-substitute queries reach a format 3 context.
+const (
+	synthTrakNoSizes  = "synth/TRAK-track0-no-sizes.ttf"
+	synthTeluguCtx3   = "synth/Telugu-blwf-context3-on-virama.ttf"
+	trakDonor         = "hb/harfbuzz_reference/in-house/fonts/TRAK.ttf"
+	teluguDonor       = "hb/harfbuzz_reference/in-house/fonts/e716f6bd00a108d186b7e9f47b4515565f784f36.ttf"
+	teluguUnsupported = 0x0C17 // GA: not in the donor's cmap
+)
+
+// teluguPhrases make the would-substitute queries see <virama, .notdef> and <virama, consonant>.
+var teluguPhrases = [][]rune{
+	{0x0C17, 0x0C4D, 0x0C15},
+	{0x0C15, 0x0C4D, 0x0C17, 0x0C3F},
+	{0x0C1A, 0x0C3F, 0x0C32, 0x0C4D, 0x0C15, 0x0C42, 0x0C30, 0x0C4D},
+	{0x0C17, 0x0C42, 0x0C30, 0x0C4D, 0x0C15},
+	{0x0C30, 0x0C4D, 0x0C17, 0x0C4D, 0x0C30, 0x0C3E},
+}
+
+var (
+	patchMu    sync.Mutex
+	patchCache = map[string][]byte{}
+)
+
+func tableOf(b []byte, tag string) (off, length int, ok bool) {
+	if len(b) < 12 {
+		return
+	}
+	n := int(binary.BigEndian.Uint16(b[4:]))
+	for i := 0; i < n && 12+16*i+16 <= len(b); i++ {
+		rec := b[12+16*i:]
+		if string(rec[:4]) == tag {
+			off, length = int(binary.BigEndian.Uint32(rec[8:])), int(binary.BigEndian.Uint32(rec[12:]))
+			return off, length, off+length <= len(b)
+		}
+	}
+	return
+}
+
+func synthPatched(id string) ([]byte, error) {
+	patchMu.Lock()
+	defer patchMu.Unlock()
+	if b, ok := patchCache[id]; ok {
+		if b == nil {
+			return nil, fmt.Errorf("%s cannot be built", id)
+		}
+		return b, nil
+	}
+	patchCache[id] = nil
+	be16 := func(b []byte, o int) int {
+		if o+2 > len(b) {
+			return 0
+		}
+		return int(binary.BigEndian.Uint16(b[o:]))
+	}
+	switch id {
+	case synthTrakNoSizes:
+		f := corpus.ByID(trakDonor)
+		if f == nil {
+			break
+		}
+		out := append([]byte(nil), f.Bytes()...)
+		off, length, ok := tableOf(out, "trak")
+		if !ok || length < 12 {
+			break
+		}
+		t := out[off : off+length]
+		h := be16(t, 6)
+		if h == 0 || h+8 > len(t) {
+			break
+		}
+		n := be16(t, h)
+		for j := 0; j < n && h+8+8*j+8 <= len(t); j++ {
+			e := t[h+8+8*j:]
+			if binary.BigEndian.Uint32(e) == 0 {
+				e[6], e[7] = 0, 0
+				patchCache[id] = out
+				break
+			}
+		}
+	case synthTeluguCtx3:
+		f := corpus.ByID(teluguDonor)
+		if f == nil {
+			break
+		}
+		out := append([]byte(nil), f.Bytes()...)
+		off, length, ok := tableOf(out, "GSUB")
+		if !ok || length < 10 {
+			break
+		}
+		g := out[off : off+length]
+		ll := be16(g, 8)
+		if be16(g, ll) <= 8 {
+			break
+		}
+		lk := ll + be16(g, ll+2+2*8)
+		typ := be16(g, lk)
+		sub := lk + be16(g, lk+6)
+		if typ == 7 && sub+8 <= len(g) {
+			typ = be16(g, sub+2)
+			sub += int(binary.BigEndian.Uint32(g[sub+4:]))
+		}
+		if typ != 6 || be16(g, sub) != 3 {
+			break
+		}
+		in := sub + 4 + 2*be16(g, sub+2)
+		if be16(g, in) != 1 {
+			break
+		}
+		cov := sub + be16(g, in+2)
+		if be16(g, cov) != 1 || be16(g, cov+2) != 1 || be16(g, cov+4) != 18 || cov+6 > len(g) {
+			break
+		}
+		binary.BigEndian.PutUint16(g[cov+4:], 7) // the virama
+		patchCache[id] = out
+	}
+	if patchCache[id] == nil {
+		return nil, fmt.Errorf("%s cannot be built", id)
+	}
+	return patchCache[id], nil
+}
+
 // fileBytes returns the content of a corpus or synthetic file.
 func fileBytes(id string) ([]byte, error) {
 	if id == synthSbixDupes {
 		return synthSbix()
+	}
+	if id == synthTrakNoSizes || id == synthTeluguCtx3 {
+		return synthPatched(id)
 	}
 	f := corpus.ByID(id)
 	if f == nil {
